@@ -168,8 +168,11 @@ func (u *c20Up) serveTCP() {
 					u.rngMu.Lock()
 					cut := 2 + u.rng.Intn(len(r))
 					u.rngMu.Unlock()
+					// (the close happens under the write lock: a delayed reply of another pipelined query written behind the
+					// partial frame would be read by the proxy as the rest of THIS frame's body)
 					wm.Lock()
 					c.Write(fr[:cut])
+					c.Close()
 					wm.Unlock()
 					return
 				}
@@ -385,7 +388,7 @@ func runOwnLoad(id string, parts []string) string {
 		// exchange in flight on it)
 		ups[0].tcPerMille, ups[0].tcpFailPerMille = 120, 300
 		ups[1].tcpFailPerMille = 30
-		ups[2].tcpFailPerMille = 8
+		ups[2].tcpFailPerMille = 15
 
 		// ---- phase 1: the router ----
 		dir, err := os.MkdirTemp("", "c20load")
